@@ -19,17 +19,22 @@ SPEC = {
         _g("datastore/badger", "badger", "badger", "TestVerifC15Badger", 700, shards_quick=2),
         _g("datastore/leveldb", "leveldb", "leveldb", "TestVerifC15Leveldb", 600, shards_quick=3),
         dict(dir="config", pkgname="config_test", files=["config/c15_manager_test.go"], test="TestVerifC15Manager",
-             n_quick=150, n_thorough=3000, shards_quick=1, shards_thorough=2),
+             n_quick=260, n_thorough=4000, shards_quick=2, shards_thorough=4),
     ],
     "gen": ["ConfigSchemas"],
-    "force": ["Model/C15_Check.v", "Proofs/C15_Tables.v"],
+    "force": ["Model/C15_Check.v", "Proofs/C15_Tables.v", "Proofs/C15_Manager.v"],
     "diag": True,
     "rule": "per section: every member of the JSON struct (found by reflection) x every candidate value of its kind on the default document "
             "(boundary stream), random multi-member documents on the default and on the empty document, wrong JSON types, raw non-objects; "
-            "non-trivial = at least one member set; distinct = distinct canonical JSON of the input",
+            "non-trivial = at least one member set; distinct = distinct canonical JSON of the input; "
+            "Manager: any subset of the 14 components registered x files with sections absent/null/not-an-object/modified, sections of unregistered "
+            "and of unknown components carrying planted secrets, unknown top-level members, malformed files; LoadJSON / LoadJSONFromFile+SaveJSON / Default",
     "codes": {1: "model_eq_impl (C15 load/save tables vs LoadJSON/ToJSON)", 10: "accepted configuration fails Validate()",
               11: "ToJSON(LoadJSON(ToJSON(cfg))) differs from ToJSON(cfg)", 12: "secret present in ToDisplayJSON",
-              13: "a well-formed setting of the document is missing from the loaded configuration", 14: "default configuration invalid"},
+              13: "a well-formed setting of the document is missing from the loaded configuration", 14: "default configuration invalid",
+              15: "a section of the accepted file whose component is not registered in the Manager is lost or altered by ToJSON/SaveJSON",
+              16: "a member named secret/private_key/basic_auth_credentials is shown in Manager.ToDisplayJSON without the hidden marker",
+              17: "the Manager accepted a file although a section in it is refused by its registered component"},
     "tags": {1: "raft-namespace-dropped", 2: "mergo-drops-false-bool"},
     "trusted": ["time.ParseDuration/Duration.String, multiaddr, peer ID, hex and key parsers: abstract (the harness tells the model accept/reject and the canonical form)",
                 "encoding/json, envconfig, mergo (zero values skipped with WithOverride)"],
@@ -37,3 +42,8 @@ SPEC = {
     "level_note": "validators transcribed by hand, pinned by source hash and checked at every bound by the harness",
     "assumptions": [],
 }
+
+# development aid: VERIF_C15_ONLY=TestVerifC15Manager runs a single harness of this property
+import os as _os
+if _os.environ.get("VERIF_C15_ONLY"):
+    SPEC["go"] = [g for g in SPEC["go"] if g["test"] in _os.environ["VERIF_C15_ONLY"].split(",")]
